@@ -919,6 +919,18 @@ func TestC46(t *testing.T) {
 		"armor-tamper: single octet substitutions / checksum edits / padding edits / truncations of armored text; judged invariant: when Decode+read succeeds and the text has a checksum line, CRC-24(returned body) equals it. " +
 		"clearsign: case = (signer RSA/DSA/ECDSA incl. signing subkey, hash, text built from nasty line heads: '-', '- ', 'From ', armor look-alikes, trailing blanks/tabs, CR/LF mixes, no final newline, empty); Encode -> Decode must return the §7.1 canonical text (Bytes) and LF text (Plaintext), leave no rest, the signature must verify over Bytes with the right signer and fail over altered Bytes; every 100th case (text containing all classes) is also verified by gpg. gpg --clearsign output (digest, signer, extra Hash headers, NotDashEscaped) must decode and verify here. distinct = (stream, algorithms, text/length/header class)")
 	m.Assume("GnuPG 2.2.40 is a correct OpenPGP implementation (witness for armor and cleartext signatures); ref/pgpfmt (CRC-24, radix-64, strict armor parser, §7.1 text model) is validated by its own vectors incl. the RFC 4880 §6.6 example; keys are fresh per process (gpg and rsa.GenerateKey randomness is not PRNG-controlled, messages and algorithms are)")
+	if mon.RaceBuild {
+		// race-detector variant: the shared-value concurrency stream only
+		ks, err := newKeyset()
+		if err != nil {
+			reportSetupError(m, err)
+			return
+		}
+		defer ks.close()
+		concStream(m, ks)
+		concGates(m)
+		return
+	}
 	c46ArmorRoundTrip(m)
 	c46ArmorSplits(m)
 	c46ArmorTamper(m)
@@ -928,6 +940,7 @@ func TestC46(t *testing.T) {
 		return
 	}
 	defer ks.close()
+	concStream(m, ks)
 	c46ArmorGPG(m, ks)
 	c46Clearsign(m, ks)
 	c46GPGClearsign(m, ks)
@@ -959,4 +972,5 @@ func TestC46(t *testing.T) {
 	m.Gate("gpg_enarmor_calls", m.N(8, 300), "armor.Decode of gpg --enarmor output")
 	c46SplitGates(m)
 	c46ChunkedVerifyGates(m)
+	concGates(m)
 }
